@@ -551,7 +551,19 @@ func runC14Op(t *testing.T, c explore.Case) (res explore.Result) {
 	return
 }
 
+// sync-level tier (schedule explorer), present only in overlay builds (build tag verife2)
+var (
+	c14SyncTier   func(t *testing.T, w *explore.Worker, idx *int)
+	c14SyncReplay func(t *testing.T, c explore.Case) explore.Result
+)
+
 func runC14(t *testing.T, c explore.Case) explore.Result {
+	if strings.HasPrefix(c.Unit, "sync;") {
+		if c14SyncReplay == nil {
+			return explore.Result{Viol: "HARNESS: sync tier not built"}
+		}
+		return c14SyncReplay(t, c)
+	}
 	if c.Unit == "query" {
 		return runC14Query(t, c)
 	}
@@ -565,6 +577,9 @@ func TestC14(t *testing.T) {
 	defer w.Finish()
 	w.SetRule("fault/timing grid on the virtual clock (resend delay 1 s): one Query with NumTries 1..3 x reply instant x ctx-cancel instant x Close instant (each in {never, right after the first send, d/2, k*d -/+ 1 ns}) x scripted socket write error on send i x a socket write stuck for half an interval (with reply / cancel / Close inside that window) x rate-limit options with a full or an empty limiter; every API call (Ping, FindNode, GetPeers, Get, Put) and traversal (Bootstrap, BootstrapContext, AnnounceTraversal with and without announce and with Close / StopTraversing, getput.Get mutable/immutable, getput.Put) under 7 start conditions (no starting nodes, nil resolver, resolver error, one silent node, one answering node, 3-node network with a silent member, two nodes one silent) x stop instant (never, 0, 0.5 s, 2.5 s), failing starts repeated 3 times in one server; oracle: the call returns, with the cause whose decisive instant comes first, at most NumTries datagrams, no pending transaction, no goroutine with a frame in the module besides the serve loop, and after Close a new query fails without writing")
 	idx := 0
+	if c14SyncTier != nil {
+		c14SyncTier(t, w, &idx)
+	}
 	run := func(unit string, h []string) {
 		i := idx
 		idx++
